@@ -88,10 +88,10 @@ def Clean (total : Nat) (l : Lit) : Prop := l.lineno + l.rest.length = total
 /-- … or the end of the file was hit exactly once (`lineno = N + 1`) -/
 def Wf (total : Nat) (l : Lit) : Prop := Clean total l ∨ (l.rest = [] ∧ l.lineno = total + 1)
 
-/-- a parser piece that can be followed by further reads: it returns in a clean state -/
+/-- a parser piece that can be followed by further reads: it returns in a clean state, further on in the file -/
 def Good {α} (m : RM α) : Prop :=
   ∀ total l, Clean total l → match m l with
-    | (.ok _, l') => Clean total l'
+    | (.ok _, l') => Clean total l' ∧ l.lineno ≤ l'.lineno
     | (.error _, l') => Wf total l'
 
 /-- a final parser piece: whatever it does, the counter is consistent at the end -/
@@ -103,11 +103,11 @@ theorem Good.fin {α} {m : RM α} (h : Good m) : Fin m := by
   rcases hm : m l with ⟨r, l'⟩
   rw [hm] at this
   cases r with
-  | ok a => exact Or.inl this
+  | ok a => exact Or.inl this.1
   | error e => exact this
 
 theorem good_pure {α} (a : α) : Good (RM.pure a : RM α) := by
-  intro total l hl; simpa [RM.pure] using hl
+  intro total l hl; exact ⟨hl, Nat.le_refl _⟩
 
 theorem good_raise {α} (c : Cls) : Good (raise c : RM α) := by
   intro total l hl; show Wf total l; exact Or.inl hl
@@ -138,7 +138,14 @@ theorem good_bind {α β} {m : RM α} {f : α → RM β} (hm : Good m) (hf : ∀
   rcases hml : m l with ⟨r, l1⟩
   rw [hml] at h1
   cases r with
-  | ok a => exact hf a total l1 h1
+  | ok a =>
+    have h2 := hf a total l1 h1.1
+    dsimp only
+    rcases hfl : f a l1 with ⟨r2, l2⟩
+    rw [hfl] at h2
+    cases r2 with
+    | ok b => exact ⟨h2.1, Nat.le_trans h1.2 h2.2⟩
+    | error e => exact h2
   | error e => exact h1
 
 theorem fin_bind {α β} {m : RM α} {f : α → RM β} (hm : Good m) (hf : ∀ a, Fin (f a)) :
@@ -149,8 +156,12 @@ theorem fin_bind {α β} {m : RM α} {f : α → RM β} (hm : Good m) (hf : ∀ 
   rcases hml : m l with ⟨r, l1⟩
   rw [hml] at h1
   cases r with
-  | ok a => exact hf a total l1 h1
+  | ok a => exact hf a total l1 h1.1
   | error e => exact h1
+
+theorem good_ite {α} {c : Prop} [Decidable c] {a b : RM α} (ha : Good a) (hb : Good b) :
+    Good (if c then a else b) := by
+  by_cases h : c <;> simp [h, ha, hb]
 
 theorem good_repeatN {body : RM Unit} (hb : Good body) (n : Nat) : Good (repeatN body n) := by
   induction n with
